@@ -303,13 +303,18 @@ package streams
 //@   modifies nothing
 //@   ensures [C07.upper.ascii] (0 <= c && c < 128) ==> (len(result) == 1 && result[0] == (('a' <= c && c <= 'z') ? c - 32 : c))
 
-// The closure reads one rune from the bufio.Reader that UppercaseTransformer created (captured variable br).
+// The closure reads one rune from the bufio.Reader that UppercaseTransformer created (captured variable br) over a
+// non-nil source: a bufio.Reader over a nil source makes a nil-interface call on its first fill. The source is a reader
+// object handed in by the program, not input; the precondition of UppercaseTransformer says so and is listed with the
+// evidence. (The closure is handed to the transform library, which calls it later: that br is the reader created by the
+// enclosing call is read off the closure binding, not checked at a call site.)
 //@ func UppercaseTransformer$1
 //@   tags C07
-//@   requires br != nil
+//@   requires br != nil && !br.nilsrc
 //@   ensures [C07.upper.err] result1 != nil ==> result == nil
 
 //@ func UppercaseTransformer
 //@   tags C07
+//@   requires r != nil
 //@   modifies nothing
 //@   ensures result != nil
